@@ -27,7 +27,7 @@ import numpy as np
 
 from sim import zoo
 
-F_NONE, F_GRAD_NAN, F_GRAD_INF, F_GRAD_HUGE, F_TELEPORT, F_ZERO, F_SIGNFLIP = range(7)
+F_NONE, F_GRAD_NAN, F_GRAD_INF, F_GRAD_HUGE, F_TELEPORT, F_ZERO, F_SIGNFLIP, F_TELEPORT_POS = range(8)
 FAULT_NAMES = {
     F_GRAD_NAN: "grad_nan",
     F_GRAD_INF: "grad_inf",
@@ -35,6 +35,7 @@ FAULT_NAMES = {
     F_TELEPORT: "opt_teleport",
     F_ZERO: "opt_zero",
     F_SIGNFLIP: "opt_signflip",
+    F_TELEPORT_POS: "opt_teleport_positive",
 }
 FAULT_CODES = {v: k for k, v in FAULT_NAMES.items()}
 NSCHED = 4
@@ -136,6 +137,9 @@ def observing_optimizer(name, lr):
         for i, (p, u) in enumerate(zip(p_leaves, u_leaves, strict=True)):
             target = jr.uniform(jr.fold_in(base, i), p.shape, p.dtype, -1.0, 1.0) * scale.astype(p.dtype)
             u = jnp.where(kind == F_TELEPORT, target - p, u)
+            # the all-positive assignment: every offered leaf in [0.25, 1] (makes every permitted path visible)
+            pos = jr.uniform(jr.fold_in(base, 1000 + i), p.shape, p.dtype, 0.25, 1.0)
+            u = jnp.where(kind == F_TELEPORT_POS, pos - p, u)
             u = jnp.where(kind == F_ZERO, jnp.zeros_like(u), u)
             u = jnp.where(kind == F_SIGNFLIP, -u, u)
             out.append(u)
